@@ -195,6 +195,11 @@ private theorem visitM_id (T : Table) (v : Visitor σ) (hv : Observer v) :
         subst h
         simp [this]
 
+/-- for a visitor that changes nothing, one statement of a `_visit_*` body leaves the node as it is -/
+theorem runStep_observer_same (T : Table) (v : Visitor σ) (hv : Observer v) (fuel : Nat) (st : Step) (n : Node) (s : σ)
+    (n1 : Node) (s1 : σ) (tr1 : List Ev) (h : runStep (callTarget T (visitM T v fuel)) st n s = .ok (n1, s1, tr1)) : n1 = n :=
+  runStep_id (callTarget_id T _ (visitM_id T v hv fuel)) st n s n1 s1 tr1 h
+
 /-! ## identity -/
 
 /-- **identity_noop** — a visitor that changes nothing leaves the tree equal: whatever the table, the state
